@@ -71,7 +71,7 @@ type caseIn struct {
 }
 
 type caseOut struct {
-	Variant   [6]int      `json:"variant"` // guard, refresh_idx, hb, ptr, cas, scas (probed on the real code)
+	Variant   [7]int      `json:"variant"` // guard, refresh_idx, hb, ptr, cas, scas, tomb_ms (probed on the real code)
 	Obs       [][][][3]int `json:"obs"`     // per op, per node, per client: kind(0 absent,1 found,2 error), node, conn
 	RS        [][][][3]int `json:"rs"`      // session mode: the same for the client runtime-state record
 	Errs      []int       `json:"errs"`    // per op: the call returned an error
@@ -629,7 +629,7 @@ func (g *ghost) checkState(o []int, clients []int, rs [][][3]int) (string, strin
 // ---------------------------------------------------------------------------------------------
 // one history
 // ---------------------------------------------------------------------------------------------
-var variant [6]int
+var variant [7]int
 
 func runCase(raw json.RawMessage) interface{} {
 	var c caseIn
@@ -740,8 +740,8 @@ func runCase(raw json.RawMessage) interface{} {
 // ---------------------------------------------------------------------------------------------
 // which of the three repairs does the tree under test contain?  (probed on the real code, no clock involved)
 // ---------------------------------------------------------------------------------------------
-func probeVariant() [6]int {
-	var v [6]int
+func probeVariant() [7]int {
+	var v [7]int
 	ttl := 300 * time.Millisecond
 	// ptr: memory backend hands back the stored *Info
 	{
@@ -792,6 +792,25 @@ func probeVariant() [6]int {
 
 // cas: is the index test-and-write of UnregisterConnection / RefreshConnection one atomic storage call?  Probed by replaying
 // the two window schedules through the gated double, per backend (a tiered storage may lack CompareAndSwap): the new registration must survive both.
+// tomb_ms: after a matched DisconnectClientIfMatch, does the heartbeat of another connection of the client rebuild the runtime
+// state at once (0), or is the rebuild blocked by a tombstone — then: the tombstone's ttl in ms, read from miniredis (no clock)
+func probeTombMs() int {
+	w := newWorld("redis", 1, time.Hour, false)
+	defer w.close()
+	cfg := managers.DefaultConfig()
+	cfg.NodeID = nodeName(1)
+	cloud := factories.NewBuiltinCloudControlWithStorageAndServices(w.ctx, cfg, w.st[1])
+	_ = cloud.ConnectClient(7, nodeName(1), connName(1), "198.51.100.7", "tcp", "V3")
+	_, _ = cloud.DisconnectClientIfMatch(7, nodeName(1), connName(1))
+	ttl := w.mr.TTL(cloudStatePrefix + "7")
+	_ = cloud.EnsureClientOnline(7, nodeName(1), connName(2), "198.51.100.7", "tcp", "V3")
+	repo := repos.NewClientStateRepository(w.ctx, w.st[1])
+	if st, err := repo.GetState(7); err == nil && st != nil && st.IsOnline() {
+		return 0
+	}
+	return int(ttl / time.Millisecond)
+}
+
 var casByBackend = map[string]int{}
 var scasByBackend = map[string]int{}
 
@@ -959,6 +978,7 @@ func main() {
 	}
 	variant[4] = casByBackend["memory"]
 	variant[5] = scasByBackend["memory"]
+	variant[6] = probeTombMs()
 	for k := 0; k < nShapes; k++ {
 		shapeIsControl[k] = probeShape(k).control
 	}
